@@ -267,6 +267,37 @@ func c17Checksum(r *Run) {
 		}
 	}
 	r.Floor(rule, "parseBlock success paths", nOK, 1)
+	// the same, decided by the prover with the right polarity and the exact boundaries: at every
+	// success return 10 ≤ n ≤ 254 and len(rest) = n+2 are established, and n = 10 and n = 254 are
+	// still accepted
+	{
+		e := newBndEngine(w, "c17-parseBlock", []*ssa.Function{pb}, nil)
+		e.entries[pb] = true
+		c := e.newCtx(pb, nil)
+		nv := c.lin(pb.Params[0])
+		rest := c.linLen(pb.Params[1])
+		for _, ret := range returnsOf(pb) {
+			if len(ret.Results) != 2 || !isNilConst(ret.Results[1]) {
+				continue
+			}
+			b, idx := ret.Block(), blockIndexOf(ret)
+			q1, ok1 := leq(linConst(10), nv, "")
+			q2, ok2 := leq(nv, linConst(254), "")
+			n2, _ := nv.add(linConst(2))
+			q3, ok3 := leq(rest, n2, "")
+			q4, ok4 := leq(n2, rest, "")
+			r.Check(ok1 && c.proveAt(b, idx, q1), rule, "parseBlock accepts only length ≥ 10", ret.Pos(), "n ≥ 10", "a length byte below the header size must be refused")
+			r.Check(ok2 && c.proveAt(b, idx, q2), rule, "parseBlock accepts only length ≤ 254", ret.Pos(), "n ≤ 254", "a length byte above 254 must be refused")
+			r.Check(ok3 && ok4 && c.proveAt(b, idx, q3) && c.proveAt(b, idx, q4), rule, "parseBlock accepts only len(rest) = length + 2", ret.Pos(), "exact", "the buffer must hold exactly the announced bytes plus the checksum")
+			for _, edge := range []int64{10, 254} {
+				qa, _ := leq(nv, linConst(edge), "")
+				qb, _ := leq(linConst(edge), nv, "")
+				fs := c.factsAt(b, idx)
+				fs.ineqs = append(fs.ineqs, qa, qb)
+				r.Check(!c.entailsSat(fs, Ineq{linConst(1), ""}), rule, fmt.Sprintf("parseBlock still accepts length = %d", edge), ret.Pos(), "boundary reachable", fmt.Sprintf("a block with length byte %d is valid and must not be refused", edge))
+			}
+		}
+	}
 	// the sum ranges over rest[:n]; the checksum is rest[n:n+2] big-endian; compared as 16 bits
 	sumOK, csOK := false, false
 	eachInstr(pb, func(in ssa.Instruction) {
